@@ -231,21 +231,26 @@ impl<C: ContentAddrStore> UnsealedState<C> {
     }
 
     fn move_action_fee_multiplier(&mut self, after_tip_901: bool, action: ProposerAction) {
-        let max_movement = if after_tip_901 {
-            ((self.fee_multiplier >> 7) as i64).max(2)
+        let max_movement: u128 = if after_tip_901 {
+            (self.fee_multiplier >> 7).max(2)
         } else {
-            (self.fee_multiplier >> 7) as i64
+            self.fee_multiplier >> 7
         };
-        let scaled_movement = max_movement * action.fee_multiplier_delta as i64 / 128;
+        // |max_movement * delta / 128|, truncated, computed on magnitudes in u128 so that neither a
+        // large multiplier nor a multiplier close to zero can overflow or wrap around
+        let delta_magnitude = (action.fee_multiplier_delta as i128).unsigned_abs();
+        let scaled_movement = (max_movement / 128) * delta_magnitude
+            + (max_movement % 128) * delta_magnitude / 128;
         log::debug!(
-            "changing fee multiplier {} by {}",
+            "changing fee multiplier {} by {}{}",
             self.fee_multiplier,
+            if action.fee_multiplier_delta < 0 { "-" } else { "" },
             scaled_movement
         );
-        if scaled_movement >= 0 {
-            self.fee_multiplier += scaled_movement as u128;
+        if action.fee_multiplier_delta >= 0 {
+            self.fee_multiplier = self.fee_multiplier.saturating_add(scaled_movement);
         } else {
-            self.fee_multiplier -= scaled_movement.unsigned_abs() as u128;
+            self.fee_multiplier = self.fee_multiplier.saturating_sub(scaled_movement);
         }
     }
 
